@@ -49,7 +49,7 @@ func repoDir() string {
 	return "/repo"
 }
 
-var rootPatterns = []string{".", "./cmd/zlint", "./cmd/zlint-gtld-update", "./profiles", "./formattedoutput"}
+var rootPatterns = []string{".", "./lints/...", "./cmd/zlint", "./cmd/zlint-gtld-update", "./profiles", "./formattedoutput"}
 
 // Load type-checks the module from the current working tree and builds SSA for
 // the whole program (dependencies from the module cache included).
@@ -485,6 +485,9 @@ func (r *Report) Finish() {
 	sort.Strings(stale)
 
 	evDir := filepath.Join(verifDir(), "evidence")
+	if d := os.Getenv("ZLV_EVDIR"); d != "" {
+		evDir = d // scratch runs (mutants, fixtures) must not touch the real evidence
+	}
 	_ = os.MkdirAll(evDir, 0o755)
 	violDir := filepath.Join(evDir, r.Prop+".violations")
 	_ = os.RemoveAll(violDir)
